@@ -123,8 +123,9 @@ def batchEntries (cfg : Cfg) (lo hi : Nat) : List BlockLogs :=
   if valid.isEmpty then [⟨hi, []⟩] else packLogs valid
 
 /-- `for fromBlock := startBlock; fromBlock <= endBlock; fromBlock += batch`.
-    `arm = some k`: the (k+1)-th FilterLogs call from now fails. Fuel exhaustion (only possible with batch = 0,
-    where the Go loop never ends) is reported as a failed fetch. -/
+    `arm = some k`: the (k+1)-th FilterLogs call from now fails. The fuel (number of blocks still to fetch) only
+    makes the recursion structural: with batch ≥ 1 it never runs out before the loop condition is false; with
+    batch = 0 (where the Go loop never ends) its exhaustion is reported as a failed fetch. -/
 def fetchLoop (cfg : Cfg) : Nat → Nat → Nat → Option Nat → FetchRes
   | 0, lo, endB, arm => ⟨[], arm, decide (lo > endB), []⟩
   | fuel + 1, lo, endB, arm =>
